@@ -720,6 +720,9 @@ let handle_sorter c =
   let st = ref (Done (s_new scfg)) in
   let nst = ref (Done (n_new scfg)) in
   let i = ref 0 in
+  (* the merge function of the main run, logging (key, returned value) of every call *)
+  let mlog : (n list * n list) list ref = ref [] in
+  let mfl ord k vs = (match mf ord k vs with Done r -> mlog := (k, r) :: !mlog; Done r | x -> x) in
   (* a creator that fails one call (attempt number j) while the caller goes on inserting: followed with the
      resumable insert of the model; the volume bound is evaluated after every insert, failed or not *)
   let crfail = (match get_all c "crfail" with [[j]] -> Some (cr_fail_at (n_of_string j) (EIo (n_of_int 7))) | _ -> None) in
@@ -757,7 +760,7 @@ let handle_sorter c =
     match !st, res with
     | Done s, ["-"] -> ()
     | Done s, _ ->
-      let r = s_insert scfg mf s k v in
+      let r = s_insert scfg mfl s k v in
       let nr = (match !nst with Done ns -> n_insert scfg ns (n_of_int (List.length k + List.length v)) | x -> x) in
       let show_n = (match nr with
         | Done ns -> Printf.sprintf "%s %s %s %s" (string_of_n ns.ns_buf.eb_L) (string_of_n ns.ns_buf.eb_U) (string_of_n ns.ns_buf.eb_n) (string_of_n ns.ns_chunks)
@@ -783,8 +786,47 @@ let handle_sorter c =
   (match !st, get_all c "out1" with
    | Done s, [o1] ->
      let spec = (match sorter_spec mf (List.map fst ins) with Done l -> entries_hash l | Panic -> "panic -" | Fail e -> "err " ^ err_name e) in
-     let model = (match s_finish mf s with Done (l, _) -> entries_hash l | Panic -> "panic -" | Fail e -> "err " ^ err_name e) in
+     let model = (match s_finish mfl s with Done (l, _) -> entries_hash l | Panic -> "panic -" | Fail e -> "err " ^ err_name e) in
      check_eq c "out1" (String.concat " " o1) model;
+     (* the calls the merge function received, in order: (key given, value returned) *)
+     (match get_all c "scalls" with
+      | [sc] -> check_eq c "merge_calls" (String.concat " " sc) (entries_hash (List.rev !mlog))
+      | _ -> ());
+     (* property: the merge function is applied to a key and values inserted under THAT key: what a call
+        returned (the concatenation of what it was given; its bytes sorted for the unstable algorithm) is
+        made of values inserted under the key the call was given, in insertion order *)
+     (match get_all c "sc" with
+      | (_ :: _ as scs) ->
+        let all : (string, Buffer.t * int list ref) Hashtbl.t = Hashtbl.create 16 in
+        List.iter (fun ((k, v), _) ->
+          let key = hex_of_bytes k in
+          let (buf, offs) = (match Hashtbl.find_opt all key with
+            | Some x -> x | None -> let x = (Buffer.create 64, ref [0]) in Hashtbl.replace all key x; x) in
+          Buffer.add_string buf (if v = [] then "" else hex_of_bytes v);
+          offs := Buffer.length buf :: !offs) ins;
+        (* small = the concatenation of a contiguous run of the values: it starts and ends on value boundaries *)
+        let is_run (small : string) ((buf, offs) : Buffer.t * int list ref) =
+          let big = Buffer.contents buf and n = String.length small in
+          List.exists (fun o -> o + n <= String.length big && List.mem (o + n) !offs && String.sub big o n = small) !offs in
+        let counts (h : string) = let a = Array.make 256 0 in
+          String.iteri (fun i _ -> if i mod 2 = 0 then let b = int_of_string ("0x" ^ String.sub h i 2) in a.(b) <- a.(b) + 1) h; a in
+        List.iter (fun t -> match t with
+          | [k; r] | [k; r; _] ->
+            let r = if r = "-" then "" else r in
+            let ok = (match Hashtbl.find_opt all k with
+              | None -> false
+              | Some big -> if stable then is_run r big
+                else (let a = counts r and b = counts (Buffer.contents (fst big)) in let okk = ref true in Array.iteri (fun i x -> if x > b.(i) then okk := false) a; !okk)) in
+            spec_ok c (prop ^ ".merge_called_with_its_key") ok
+              (Printf.sprintf "a merge call given key %s returned bytes that were not inserted under that key" k)
+          | _ -> ()) scs
+      | _ -> ());
+     (* the chunks handed out by into_reader_cursors, oldest first: each holds the chunk of the model *)
+     (match get_all c "chunks3", s_finish mf s with
+      | [scans], Done (_, chunks) ->
+        let show ch = String.concat ":" (String.split_on_char ' ' (entries_hash ch)) in
+        check_eq c "chunks3" (String.concat "," scans) (String.concat "," (List.map show chunks))
+      | _ -> ());
      List.iter (fun tag ->
        match get_all c tag with
        | [o] ->
